@@ -12,8 +12,11 @@ package main
 //        y:<k>:<variant>            UnSubscribe(a re-spelling of that id, see respell); res = .
 //        x:<idHex>                  UnSubscribe(arbitrary string); res = .
 //        d:<sess>:<type>            GetSubscribers; res = channel numbers, ascending
-//        m:<sess>:<type>[+…]        one inbound stream carrying these messages through the real
-//                                   ProcessMessagesFromStream; res = per message the channel numbers that received it
+//        m:<sess>:<type>[:<size>][+…] one inbound stream carrying these messages (payload of <size> bytes) through the
+//                                   real ProcessMessagesFromStream; res = per message the channel numbers that received it
+//                                   intact (`!` appended if any payload / session / type / sender arrived altered)
+//        c:<sess>                   CloseSession(sess) on the real Libp2pCommunication (an outbound stream of the session
+//                                   is registered first so that there is something to release); res = .
 //      retained entries: <sess>:<type>:<key>:<chan>, sorted, from the real subscribersMap after the last op.
 
 import (
@@ -95,8 +98,24 @@ func respell(sess string, typ int, suffix string, variant string) string {
 	return sess + "-" + t + "-" + suffix
 }
 
+// c12Payload: message j of a stream, padded to `size` bytes with a position-dependent pattern.
+func c12Payload(j, size int) []byte {
+	b := []byte(strconv.Itoa(j) + "|")
+	for i := len(b); i < size; i++ {
+		b = append(b, byte(33+(i*7+j*13)%90))
+	}
+	return b
+}
+
+func c12MsgSize(g []string) int {
+	if len(g) >= 3 {
+		return int(u64(g[2]))
+	}
+	return 0
+}
+
 func c12Run(spec string) string {
-	c := p2p.Libp2pCommunication{SessionSubscriptionManager: p2p.NewSessionSubscriptionManager()}
+	c := p2p.VerifNewCommunication()
 	type subRec struct {
 		sess string
 		typ  int
@@ -135,6 +154,11 @@ func c12Run(spec string) string {
 		case "x":
 			c.UnSubscribe(comm.SubscriptionID(unhx(f[1])))
 			res = append(res, ".")
+		case "c":
+			sess := string(unhx(f[1]))
+			c.VerifAddStream(sess, c12Remote, &c12Stream{r: bytes.NewReader(nil), conn: &c12Conn{remote: c12Remote}})
+			c.CloseSession(sess)
+			res = append(res, ".")
 		case "d":
 			got := []int{}
 			for _, ch := range c.GetSubscribers(string(unhx(f[1])), comm.MessageType(u64(f[2]))) {
@@ -153,7 +177,7 @@ func c12Run(spec string) string {
 				g := strings.Split(m, ":")
 				b, err := json.Marshal(comm.WrappedMessage{
 					MessageType: comm.MessageType(u64(g[1])), SessionID: string(unhx(g[0])),
-					Payload: []byte(strconv.Itoa(j)), From: peer.ID("spoofed"),
+					Payload: c12Payload(j, c12MsgSize(g)), From: peer.ID("spoofed"),
 				})
 				if err != nil {
 					panic(err)
@@ -176,12 +200,20 @@ func c12Run(spec string) string {
 				for {
 					select {
 					case w := <-r.ch:
-						j, err := strconv.Atoi(string(w.Payload))
+						cut := bytes.IndexByte(w.Payload, '|')
+						if cut < 0 {
+							bad = true
+							continue
+						}
+						j, err := strconv.Atoi(string(w.Payload[:cut]))
 						if err != nil || j < 0 || j >= len(msgs) {
 							bad = true
 							continue
 						}
 						g := strings.Split(msgs[j], ":")
+						if !bytes.Equal(w.Payload, c12Payload(j, c12MsgSize(g))) {
+							bad = true
+						}
 						if w.SessionID != string(unhx(g[0])) || int(w.MessageType) != int(u64(g[1])) || w.From != c12Remote {
 							bad = true
 						}
@@ -305,6 +337,7 @@ func genC12(g *G) {
 		for k := 0; k < nsub; k++ {
 			ext("u:"+itoa(k), nsub)
 		}
+		ext("c:"+hs("1-2-100-104-0"), nsub)
 		// a delivery in the middle only after at least one cancel or two subscriptions (otherwise the closing stream says it all)
 		if depth >= 2 {
 			for b := 0; b < nb; b++ {
@@ -312,6 +345,30 @@ func genC12(g *G) {
 			}
 		}
 	}
+	// --- message sizes around the stream reader's buffer (4096 bytes on the wire ~ 3 KiB of payload) and far beyond, first,
+	// in the middle and last on a stream, with a second subscriber bucket that must still get the later messages
+	sizes := []int{0, 1, 2990, 3000, 3010, 3020, 3024, 3027, 3030, 3033, 3036, 3039, 3042, 3050, 3060, 4095, 4096, 4097, 8192, 65536, 1 << 20}
+	if g.Thorough() {
+		for n := 2980; n <= 3080; n++ {
+			sizes = append(sizes, n)
+		}
+		sizes = append(sizes, 4<<20)
+	}
+	for _, n := range sizes {
+		big, small := bk[0]+":"+itoa(n), bk[1]
+		g.Emit("run", "s:"+bk[0]+";s:"+bk[1]+";s:"+bk[0]+";m:"+big+"+"+small+";m:"+small+"+"+big+"+"+small+";m:"+big+"+"+big+";u:0;m:"+small+"+"+big)
+		g.Emit("run", "s:"+hs("k")+":0;m:"+hs("k")+":0:"+itoa(n)+";d:"+hs("k")+":0")
+	}
+	// --- CloseSession is not a cancellation: A and B share a session, A tears down (cancel + CloseSession in both orders),
+	// B must keep receiving; also closing before / between / after subscriptions and closing other sessions
+	for _, t := range []string{
+		"s:A4;s:A4;u:0;c:A;m:A4", "s:A4;s:A4;c:A;u:0;m:A4", "s:A4;s:A5;u:0;c:A;m:A4+A5", "s:A4;c:A;m:A4", "c:A;s:A4;m:A4", "s:A4;c:A;c:A;s:A4;m:A4",
+		"s:A4;s:B4;c:A;m:A4+B4", "s:A4;s:B4;c:B;u:1;m:A4+B4", "s:A4;u:0;c:A;s:A4;m:A4", "s:A4;s:A4;s:A4;u:1;c:A;d:A4;u:0;c:A;m:A4"} {
+		t = strings.NewReplacer("A4", bk[0], "A5", bk[1], "B4", hs("keygen-17")+":4", "c:A", "c:"+hs("1-2-100-104-0"), "c:B", "c:"+hs("keygen-17")).Replace(t)
+		g.Emit("run", t)
+	}
+	closeOp := "c:" + hs("1-2-100-104-0")
+	_ = closeOp
 	inter(nil, 0, 0, g.Count(6, 7), 1)
 	inter(nil, 0, 0, g.Count(5, 6), 2)
 	// --- histories
@@ -350,12 +407,20 @@ func genC12(g *G) {
 				ops = append(ops, "y:"+itoa(g.Intn(nsub))+":"+itoa(g.Intn(6)))
 			case r < 66:
 				ops = append(ops, "x:"+hx(c12RandSess(g)))
+			case r < 70:
+				ops = append(ops, "c:"+g.Pick(pool))
 			case r < 84:
 				ops = append(ops, "d:"+st())
 			default:
-				ms := []string{st()}
+				sz := func() string {
+					if g.Intn(5) == 0 {
+						return ":" + itoa([]int{3000, 3030, 3036, 3050, 4096, 4097, 9000, 70000}[g.Intn(8)])
+					}
+					return ""
+				}
+				ms := []string{st() + sz()}
 				for g.Intn(3) == 0 && len(ms) < 4 {
-					ms = append(ms, st())
+					ms = append(ms, st()+sz())
 				}
 				ops = append(ops, "m:"+strings.Join(ms, "+"))
 			}
